@@ -13,44 +13,56 @@ SOURCES = ["include/etl/_set/static_set.hpp", "include/etl/_flat_set/flat_set.hp
            "include/etl/_flat_set/flat_multiset.hpp", "include/etl/_flat_set/sorted_unique.hpp",
            "include/etl/_algorithm/lower_bound.hpp", "include/etl/_algorithm/upper_bound.hpp",
            "include/etl/_algorithm/equal_range.hpp", "include/etl/_algorithm/rotate.hpp",
-           "include/etl/_algorithm/remove_if.hpp", "include/etl/_algorithm/gnome_sort.hpp",
+           "include/etl/_algorithm/sort.hpp", "include/etl/_algorithm/gnome_sort.hpp",
            "include/etl/_vector/static_vector.hpp"]
 RULE = ("A case is a history: `new kind cap cmp ctor init other` followed by operations on the current set. "
         "Configurations: static_set, flat_set<static_vector>, flat_set<inplace-vector-like> x capacity 3,4 x "
-        "less<int>, greater<int>, less<>, greater<> (transparent, heterogeneous key type). Exhaustive part: from EVERY "
+        "less<int>, greater<int>, less<>, greater<> (transparent, heterogeneous key type), and for static_set / "
+        "flat_set<static_vector> a comparator that is only a strict weak order (`hless`: integers ordered by k/2, so "
+        "equivalent keys are not equal; key universe 0..7). Exhaustive part: from EVERY "
         "reachable set (every subset of the key universe with at most `cap` elements; universe 0..5, constructed "
         "through every constructor) (a) every lookup member x every key x homogeneous/heterogeneous x const/non-const "
         "overload, (b) every single modifier (insert via insert/move/emplace/hint of every key, range insert, erase by "
         "every key / every position / every range, clear, member and free swap, extract, replace), (c) every sequence of "
-        "2 (thorough: 3 over universe 0..4) insert/erase-by-key operations; flat_multiset construction from every list "
-        "over 3 values up to length 5 (6). Random part (VERIF_SEED): histories of 12-40 operations over all members. "
+        "2 (thorough: 3 over universe 0..4) insert/erase-by-key operations; (d) the same from every reachable set of the "
+        "strict-weak comparator; (e) the sorted_unique constructors on every sequence over 4 values of length 2-3 that "
+        "violates their precondition (construction line only: the container is adopted as it is); flat_multiset "
+        "construction from every list over 3 values up to length 5 (6) and, for the strict-weak comparator, over 4 values up "
+        "to length 5. Random part (VERIF_SEED): histories of 12-40 operations over all members. "
         "Every line compares result and full iteration order. A case is non-trivial when it contains an operation "
         "other than `new` that meets a non-empty set or changes the set; distinct = distinct case text.")
 ASSUMPTIONS = ["std::set / std::multiset of libstdc++ 12 with the corresponding std comparator is the reference for spec "
                "validation (R2); capacity is emulated on the std side by refusing a new key when size()==cap",
-               "keys are ints; for less/greater on ints comparator equivalence coincides with ==, which static_set::find(key) "
-               "and flat_set::erase(key) rely on (they use operator==) — theorems carry this as the hypothesis `StrictTotal`",
+               "the comparator is a strict weak ordering ([alg.sorting]/4) — the hypothesis `StrictWeak` of every theorem; "
+               "no member depends on operator== agreeing with the comparator's equivalence any more (static_set::find(key) "
+               "and flat_set::erase(key) did; repaired, findings F-C09-ss-find-eq / F-C09-fs-erase-key-eq)",
+               "a heterogeneous key is consistent with the order of the set ([associative.reqmts] kl/ku/ke): hypothesis `HetOk`",
                "histories respect the documented preconditions: erase positions/ranges inside the set, replace/sorted_unique "
-               "input sorted, unique and within capacity, range constructor input within capacity"]
-TRUSTED = ["hand model Tetl/C09/Model.lean tied to the source by the correspondence run (R1) on every run",
+               "input sorted, unique and within capacity (decidable predicates Spec.valid / Spec.validCtor), range and "
+               "container constructor input within capacity"]
+TRUSTED = ["hand model Tetl/C09/Model.lean (flat_multiset: the C06 model of gnome_sort, Tetl/C06/Model/Sort.lean) tied to the "
+           "source by the correspondence run (R1) on every run",
            "spec Tetl/C09/Spec.lean validated against libstdc++ std::set/std::multiset (R2) on every run",
-           "the harness' minimal inplace-vector-like container (mini_vec) is test code, modelled by its contract"]
+           "the harness' minimal inplace-vector-like container (mini_vec) is test code, modelled by its contract",
+           "const and non-const overloads (and insert(const&)/insert(&&)/emplace) have token-identical bodies and share one "
+           "model definition; each is exercised by the correspondence run (cst=1, via=move/emplace)"]
+_P = "Tetl.C09.Props."
+_LOOK = [_P + "lookup_eq", _P + "hlookup_eq", _P + "step_refines"]
 THEOREMS = {
-    "insert": ["Tetl.C09.Props.ssInsert_eq", "Tetl.C09.Props.fsEmplace_eq", "Tetl.C09.Props.fiEmplace_eq",
-               "Tetl.C09.Props.full_insert_new_key", "Tetl.C09.Props.run_refines"],
-    "insert_range": ["Tetl.C09.Props.ssInsertRange_eq", "Tetl.C09.Props.fsInsertRange_eq", "Tetl.C09.Props.run_refines"],
-    "erase_key": ["Tetl.C09.Props.ssEraseKey_eq", "Tetl.C09.Props.fsEraseKey_eq", "Tetl.C09.Props.run_refines"],
-    "erase_at": ["Tetl.C09.Props.ssEraseAt_eq", "Tetl.C09.Props.run_refines"],
-    "erase_range": ["Tetl.C09.Props.ssEraseRange_eq", "Tetl.C09.Props.run_refines"],
-    "find": ["Tetl.C09.Props.ssFind_eq", "Tetl.C09.Props.findLB_eq"],
-    "contains": ["Tetl.C09.Props.ssFind_eq", "Tetl.C09.Props.findLB_eq", "Tetl.C09.Props.step_refines"],
-    "count": ["Tetl.C09.Props.ssFind_eq", "Tetl.C09.Props.findLB_eq", "Tetl.C09.Props.step_refines"],
-    "lower_bound": ["Tetl.C09.Props.lowerBound_eq"],
-    "upper_bound": ["Tetl.C09.Props.upperBound_eq"],
-    "equal_range": ["Tetl.C09.Props.equalRange_eq"],
-    "clear": ["Tetl.C09.Props.step_refines"], "swap": ["Tetl.C09.Props.step_refines"],
-    "extract": ["Tetl.C09.Props.step_refines"], "replace": ["Tetl.C09.Props.step_refines"],
-    "new": ["Tetl.C09.Props.ssInsertRange_eq", "Tetl.C09.Props.fsInsertRange_eq", "Tetl.C09.Props.inv_history"],
+    "insert": [_P + "ssInsert_eq", _P + "fsEmplace_eq", _P + "fiEmplace_eq", _P + "fsInsertHint_eq",
+               _P + "full_insert_new_key", _P + "run_refines"],
+    "insert_range": [_P + "ssInsertRange_eq", _P + "fsInsertRange_eq", _P + "fiInsertRange_eq", _P + "run_refines"],
+    "erase_key": [_P + "ssEraseKey_eq", _P + "fsEraseKey_eq", _P + "setEraseKey_eq", _P + "run_refines"],
+    "erase_at": [_P + "ssEraseAt_eq", _P + "run_refines"],
+    "erase_range": [_P + "ssEraseRange_eq", _P + "run_refines"],
+    "find": [_P + "findLB_eq"] + _LOOK, "contains": _LOOK, "count": _LOOK,
+    "lower_bound": [_P + "lowerBound_eq"] + _LOOK, "upper_bound": [_P + "upperBound_eq"] + _LOOK,
+    "equal_range": [_P + "equalRange_eq"] + _LOOK,
+    "clear": [_P + "clear_eq", _P + "step_refines"], "swap": [_P + "swap_eq", _P + "step_refines"],
+    "extract": [_P + "extract_eq", _P + "step_refines"], "replace": [_P + "replace_eq", _P + "step_refines"],
+    "riter": [_P + "riter_eq", _P + "step_refines"],
+    "new": [_P + "construct_eq", _P + "construct_inv", _P + "inv_history"],
+    "mset": [_P + "multiset_sorted_perm", _P + "multiset_eq_spec"],
 }
 SEARCH_CAP = 400000
 
@@ -61,11 +73,20 @@ LOOKUPS = ["find", "contains", "count", "lower_bound", "upper_bound", "equal_ran
 
 
 def asc(cmp):
-    return cmp in ("less", "tless")
+    return cmp in ("less", "tless", "hless")
+
+
+def cls(cmp, k):
+    """equivalence class of a key under the comparator (`hless` orders by k // 2)"""
+    return k // 2 if cmp == "hless" else k
 
 
 def order(cmp, xs):
-    return sorted(set(xs), reverse=not asc(cmp))
+    """the set std::set builds from inserting xs in this order: first key of each class, ascending"""
+    first = {}
+    for x in xs:
+        first.setdefault(cls(cmp, x), x)
+    return [first[c] for c in sorted(first, reverse=not asc(cmp))]
 
 
 class Sim:
@@ -83,7 +104,7 @@ class Sim:
         self.oth, self.cur = self.cur, tmp
 
     def insert(self, k):
-        if k in self.cur:
+        if cls(self.cmp, k) in [cls(self.cmp, x) for x in self.cur]:
             return "dup"
         if len(self.cur) >= self.cap:
             return "full"
@@ -202,7 +223,44 @@ def generate(tier, seed):
                     for s in subsets(V, cap):
                         for seq in itertools.product(ops, repeat=depth):
                             add([new_line(kind, cap, cmp, "range", order(cmp, s)[::-1])] + list(seq), "seq%d/%s" % (depth, cfg))
+    # (d) a comparator that is only a strict weak order (`hless` orders by k // 2: equivalent keys need not be equal)
+    U8 = list(range(8))
+    for kind in ("ss", "fs"):
+        for cap in CAPS:
+            cfg = "%s/%d/hless" % (kind, cap)
+            reps = []          # every reachable set: one representative of each chosen class
+            for n in range(cap + 1):
+                for classes in itertools.combinations(range(4), n):
+                    for bits in itertools.product((0, 1), repeat=n):
+                        reps.append([2 * c + b for c, b in zip(classes, bits)])
+            others = [[], [U8[0]], U8[1:cap + 1]]
+            for s in reps:
+                for ctor in ctors(kind):
+                    variant += 1
+                    add([new_line(kind, cap, "hless", ctor, init_for(ctor, "hless", s, variant))] + lookup_lines("hless", U8 + [9]),
+                        "lookup/" + cfg)
+                for lines, tag in modifiers(kind, cap, "hless", s, U8):
+                    variant += 1
+                    ctor = ctors(kind)[variant % len(ctors(kind))]
+                    add([new_line(kind, cap, "hless", ctor, init_for(ctor, "hless", s, variant), others[variant % 3])] + lines + ["riter"],
+                        tag + "/" + cfg)
+            if cap == 3 or thorough:
+                ops = ["insert k=%d" % k for k in U8] + ["erase_key k=%d" % k for k in U8]
+                for s in reps:
+                    for seq in itertools.product(ops, repeat=2):
+                        add([new_line(kind, cap, "hless", "range", s[::-1])] + list(seq), "seq2/" + cfg)
+    # (e) sorted_unique constructors handed a sequence that is NOT sorted and unique (violated precondition): the
+    #     container is adopted as it is; only the construction line is compared
+    for kind, cmp in (("fs", "less"), ("fs", "greater"), ("fi", "less"), ("fi", "tgreater"), ("fs", "hless")):
+        for ctor in ("su", "sur"):
+            for n in range(2, 4):
+                for t in itertools.product([0, 1, 2, 3], repeat=n):
+                    if list(t) != order(cmp, t):
+                        add([new_line(kind, 3, cmp, ctor, list(t))], "su_violated/%s/%s" % (kind, cmp))
     # flat_multiset construction
+    for n in range(6):
+        for t in itertools.product([0, 1, 2, 3], repeat=n):
+            add(["mset kind=fs cmp=hless c=%s" % fmt_list(t)], "mset/hless")
     for cmp in CMPS:
         for kind in ("fs", "fi"):
             for n in range((6 if thorough else 5) + 1):
@@ -214,8 +272,11 @@ def generate(tier, seed):
     # random histories over all members
     branch = {"full": 0, "dup": 0, "new": 0, "erase_absent_with_successor": 0, "erase_present": 0}
     for _ in range(60000 if thorough else 6000):
-        kind, cap, cmp = rnd.choice(KINDS), rnd.choice(CAPS), rnd.choice(CMPS)
+        kind, cap, cmp = rnd.choice(KINDS), rnd.choice(CAPS), rnd.choice(CMPS + ["hless"])
         universe = U if rnd.random() < 0.8 else list(range(0, 12, 2))
+        if cmp == "hless":
+            kind = "ss" if kind == "ss" else "fs"
+            universe = list(range(10))
         init = rnd.sample(universe, rnd.randint(0, cap))
         other = rnd.sample(universe, rnd.randint(0, cap))
         ctor = rnd.choice(ctors(kind))
@@ -232,9 +293,10 @@ def generate(tier, seed):
                 branch[sim.insert(k)] += 1
             elif r < 0.45:
                 lines.append("erase_key k=%d" % k)
-                if k in sim.cur:
+                eqv = [x for x in sim.cur if cls(cmp, x) == cls(cmp, k)]
+                if eqv:
                     branch["erase_present"] += 1
-                    sim.cur.remove(k)
+                    sim.cur.remove(eqv[0])
                 elif sim.cur and order(cmp, sim.cur + [k])[-1] != k:
                     branch["erase_absent_with_successor"] += 1
             elif r < 0.52 and n > 0:
@@ -299,34 +361,41 @@ def group_of(case):
 
 CLAIMED = True
 TECHNIQUE = ("Lean 4 proof: hand model of static_set / flat_set members (binary-search loops, push_back + rotate swap cycle, "
-             "move-down erase) refines a declarative sorted-list spec for all histories, capacities and strict total "
-             "comparators; model tied to the code by exhaustive small-scope + random correspondence runs")
+             "move-down erase, the three-move static_vector::swap, container moves of extract/replace/constructors, gnome sort "
+             "of flat_multiset) refines a declarative sorted-list spec for all histories, capacities and strict weak "
+             "orders incl. heterogeneous lookups; model tied to the code by exhaustive small-scope + random correspondence runs")
 LEVEL_TEXT = ("The members of static_set and flat_set are modelled loop by loop over a plain list (lower_bound/upper_bound as the "
-              "count/step loop, insertion as push_back + the rotate swap cycle, erase as move-down + shrink, every element access "
-              "checked). Lean 4 proves, with no bound on history length, capacity or key type and for every strict total comparator, "
-              "that every history of insert/emplace, range insert, erase by key/position/range, clear, swap, extract, replace and "
-              "all lookups never leaves the vector (no .error), keeps the elements strictly ascending (hence unique) and within "
-              "capacity, and returns exactly the (position, inserted) / erased-count / lookup answers of the declarative std::set "
-              "spec; a new key in a full set returns `full` and leaves the set unchanged. The model is tied to the current source "
-              "on every run by executing model and implementation on the same histories (exhaustive from every reachable set over "
-              "6 keys, capacity 3-4, four comparators incl. transparent/heterogeneous, three backings; random long histories) under "
-              "ASan/UBSan; the spec is validated against libstdc++ std::set/std::multiset on the same histories.")
+              "count/step loop, insertion as push_back + the rotate swap cycle, erase as move-down + shrink, swap as the three "
+              "moves of static_vector::swap — each a clear + append loop + rotate —, extract/replace/constructors as the container "
+              "moves they perform, reverse iteration, every element access checked). Lean 4 proves, with no bound on history "
+              "length, capacity or key type and for every comparator that is a strict weak ordering (equivalent keys need not be "
+              "equal), that every history of insert/emplace/insert(hint), range insert, erase by key/position/range, clear, swap, "
+              "extract, replace, all lookups — the key_type overloads and the heterogeneous K const& overloads, the latter for any "
+              "pair of comparison functions consistent with the order — and reverse iteration never leaves the vector (no .error), "
+              "keeps the elements strictly ascending (hence unique) and within capacity, and returns exactly the (position, "
+              "inserted) / erased-count / lookup answers of the declarative std::set spec; a new key in a full set returns `full` "
+              "and leaves the set unchanged; every constructor on input meeting its precondition builds the spec's set; "
+              "flat_multiset(container) leaves a weakly ascending permutation of the container (multiset_sorted_perm, through the C06 "
+              "gnome-sort theorem). The model is tied to the current source on every run by executing model and implementation on "
+              "the same histories (exhaustive from every reachable set over 6 keys, capacity 3-4, four comparators incl. "
+              "transparent/heterogeneous plus a strict-weak-only comparator over 8 keys, three backings; random long histories) "
+              "under ASan/UBSan; the spec is validated against libstdc++ std::set/std::multiset on the same histories.")
 LEVEL_NOTE = ("Trusted: Lean kernel + propext/Classical.choice/Quot.sound; the hand model's fidelity outside the explored inputs; "
-              "g++-12/ASan; libstdc++ as oracle for spec validation; the comparator is assumed a strict total order whose equivalence "
-              "is == (true for less/greater on integers). Members listed in coverage.correspondence_only are modelled and compared on "
-              "every run but enter the history theorem through an explicitly stated container contract rather than a proved loop.")
+              "g++-12/ASan; libstdc++ as oracle for spec validation; the comparator is assumed a strict weak ordering. Members "
+              "listed in coverage.correspondence_only are compared on every run but have no loop-level theorem.")
 # members modelled and compared on every run whose loop-level model has no Lean theorem (yet)
 CORRESPONDENCE_ONLY = [
-    "flat_multiset(KeyContainer) = gnome_sort (gnomeSort is modelled and compared with std::multiset on every run; "
-    "the sorted-permutation theorem C09.multiset_sorted_perm of DESIGN §4 is not proved)",
-    "swap: static_vector::swap / move assignment underneath static_set::swap and flat_set::swap are modelled as an exchange of the two lists",
-    "clear / extract / replace: the container's clear() and move are modelled as list assignment",
-    "heterogeneous (K const&) and const overloads: same C++ body as the homogeneous/non-const overload; the model uses one definition "
-    "for both, so the theorems cover them only through the correspondence run (a key of another type is compared through lt on its value)",
-    "insert(const_iterator hint, x) / emplace_hint: forwards to emplace; the hint is ignored by the model as by the code",
-    "reverse iteration (rbegin/rend), empty(), max_size(), full(): observed by the harness on every line, no theorem",
-    "flat_set over the harness' inplace-vector-like container: the container's emplace/erase are a stated contract (miniEmplace/miniErase), "
-    "not tetl code; flat_set's own algorithm on top of it is proved (fiEmplace_eq, step_refines)",
-    "constructors: range / container constructors are proved through ssInsertRange_eq / fsInsertRange_eq; the sorted_unique "
-    "constructors take the container as is (precondition: sorted and unique)",
+    "empty(), max_size(), full(), size(): one-line forwards to the container, observed by the harness on every line "
+    "(state_of), not modelled",
+    "flat_set / flat_multiset over the harness' inplace-vector-like container: the container's emplace / erase / copy / clear are a "
+    "stated contract (miniEmplace / miniErase / miniCtor / miniClear), not tetl code; flat_set's own algorithm on top of it is "
+    "proved (fiEmplace_eq, setEraseKey_eq, step_refines); flat_multiset over it is compared only (the sort itself is the proved "
+    "C06 model)",
+    "erase_if(flat_set, pred) and the relational operators (==, <, ...) of static_set / flat_set: not part of the property "
+    "statement; not modelled, not generated",
+    "sorted_unique constructors on input that violates their precondition: compared with 'the container is adopted as it is' "
+    "on the construction line only (generator group su_violated); nothing is claimed about later operations",
+    "stability of flat_multiset's sort for a comparator whose equivalence is coarser than == (model = stable spec is compared "
+    "on every run with `hless`; proved are the sorted-permutation property for every strict weak order and equality with the "
+    "spec when == is the equivalence)",
 ]
